@@ -33,7 +33,7 @@ var (
 	txtBytes = []byte{' ', ' ', '\n', '\t', '\f', '\r', '\v', 0x1f, 0xa0, 0x85, 'A', 'Z', 'M', 'a', 'z', 'm', '@', '[', '`', '{', 0, 255, 0xC3, 0x89, '0', '!'}
 	duBases  = S("", "", "text/html", "a/b", "image/svg+xml", "text/plain")
 	duParams = S("", "", ";charset=utf-8", ";a=b;c=d", ";x=y")
-	duEncs   = []string{"b64", "pctall", "pctlower", "pctmin", "query"}
+	duEncs   = []string{"b64", "pctall", "pctlower", "pctmin", "query", "tab"}
 	special  = []byte{0, '%', '+', ',', ';', '=', ' ', 'a', 'Z', '9', 255, 0x80, '/', ':', '#', '&', '~', '\n', '"'}
 )
 
